@@ -5,7 +5,9 @@ ASSUMPTIONS = [
     "a validator built without recycling is compared with itself on repetition and with the model (which is a pure function of definition and value)",
 ]
 RULE = ("schema family: one non-recycling validator validates the same value twice; verdict, (code,name,kind) set and match "
-        "count of the second call must equal the first and the Lean model's; reuse family: see coverage.reuse; "
+        "count of the second call must equal the first and the Lean model's; reuse family: 1-3 long-lived schema / parameter / header "
+        "validators built without recycling, 4-12 calls in any order with repeats, each compared with a freshly built validator and "
+        "with every earlier identical call; "
         "non-trivial = schema with at least 3 keywords, distinct by hash")
 
 
@@ -33,10 +35,46 @@ def correspond(ctx, C):
         if not im["panic"] and (im["valid"] != ob["valid"] or im["mc"] != ob["mc"]):
             ties.append((case, {"what": "model (a pure function of schema and value) differs from the code (tie T2 broken)",
                                 "go": [ob["valid"], ob["mc"]], "impl": [im["valid"], im["mc"]]}))
+    # reuse family: long-lived schema / parameter / header validators, any order, repeats
+    import json as _json
+    nr = 3000 if ctx.tier == "quick" else 60000
+    if ctx.search:
+        nr *= 3
+    reuse = {"cases": 0, "calls": 0, "repeated_calls": 0, "kinds": {}, "panics_both": 0}
+    rrows = [] if S.replay_file(ctx, C) and ctx.replay["case"].get("fam") != "reuse" else \
+        C.run_family("reuse", nr, ctx.seed + 80, ctx.tier, replay=S.replay_file(ctx, C))
+    for r in rrows:
+        case, go = r["case"], r["go"]
+        if not isinstance(go, dict) or "long" not in go:
+            viol.append((case, {"what": "harness could not run the case", "detail": go}))
+            continue
+        reuse["cases"] += 1
+        seen = {}
+        for i, (call, lo, fr) in enumerate(zip(case["calls"], go["long"], go["fresh"])):
+            reuse["calls"] += 1
+            kind = case["validators"][call["v"]]["kind"]
+            reuse["kinds"][kind] = reuse["kinds"].get(kind, 0) + 1
+            if "panic" in lo and "panic" in fr:
+                reuse["panics_both"] += 1
+                continue
+            if lo != fr:
+                viol.append((case, {"what": "call %d: a %s validator built without recycling, used before, answers differently from a freshly "
+                                            "built one on the same value" % (i, kind), "value": call["value"], "long_lived": lo, "fresh": fr}))
+                break
+            key = _json.dumps([call["v"], call["value"]], sort_keys=True)
+            if key in seen:
+                reuse["repeated_calls"] += 1
+                if seen[key][1] != lo:
+                    viol.append((case, {"what": "calls %d and %d are the same call (%s validator, same value) and answer differently" % (seen[key][0], i, kind),
+                                        "value": call["value"], "earlier": seen[key][1], "later": lo}))
+                    break
+            else:
+                seen[key] = (i, lo)
     out_viol = viol[:3]
     if ties and not out_viol:
         case, info = ties[0]
         out_viol.append((case, dict(info, tie_cases=len(ties), no_failing_input=True)))
     cov = st.coverage(RULE)
     cov["tie_mismatches"] = len(ties)
+    cov["reuse"] = reuse
     return {"coverage": cov, "violations": out_viol, "known": []}
